@@ -55,7 +55,18 @@ Table == <<
   R("x2",    <<"x", "2">>,            "string", 0),
   R("x12",   <<"x", "1", "2">>,       "string", 0),
   R("5x",    <<"5", "x">>,            "string", 0),
-  R("1e1",   <<"1", "e", "1">>,       "float",  100)
+  R("1e1",   <<"1", "e", "1">>,       "float",  100),
+  \* texts of the family "sksep" (SortCases): one a proper prefix of another that goes on with a byte below or above the
+  \* comma, texts holding the comma or the backslash themselves, a sign
+  R("Ann",       <<"A", "n", "n">>,                                    "string", 0),
+  R("Ann Marie", <<"A", "n", "n", " ", "M", "a", "r", "i", "e">>,      "string", 0),
+  R("Ann-Marie", <<"A", "n", "n", "-", "M", "a", "r", "i", "e">>,      "string", 0),
+  R("Anna",      <<"A", "n", "n", "a">>,                               "string", 0),
+  R("a,b",       <<"a", ",", "b">>,                                    "string", 0),
+  R("a-b",       <<"a", "-", "b">>,                                    "string", 0),
+  R("a\\b",      <<"a", "\\", "b">>,                                   "string", 0),
+  R(",",         <<",">>,                                              "string", 0),
+  R("+1",        <<"+", "1">>,                                         "int",    10)
 >>
 \* the 19 value texts (the first 19 rows), in table order
 U == [i \in 1..19 |-> Table[i].t]
@@ -65,7 +76,7 @@ Row == [t \in Texts |-> Table[CHOOSE i \in 1..Len(Table) : Table[i].t = t]]
 IsNum(t) == Row[t].k \in {"int", "float"}
 
 \* ASCII
-Code == "-" :> 45 @@ "." :> 46 @@ "0" :> 48 @@ "1" :> 49 @@ "2" :> 50 @@ "5" :> 53 @@ "7" :> 55 @@ "9" :> 57 @@
+Code == " " :> 32 @@ "+" :> 43 @@ "," :> 44 @@ "M" :> 77 @@ "\\" :> 92 @@ "i" :> 105 @@ "n" :> 110 @@ "-" :> 45 @@ "." :> 46 @@ "0" :> 48 @@ "1" :> 49 @@ "2" :> 50 @@ "5" :> 53 @@ "7" :> 55 @@ "9" :> 57 @@
         "A" :> 65 @@ "B" :> 66 @@ "a" :> 97 @@ "b" :> 98 @@ "c" :> 99 @@ "d" :> 100 @@ "e" :> 101 @@ "f" :> 102 @@
         "l" :> 108 @@ "r" :> 114 @@ "s" :> 115 @@ "t" :> 116 @@ "u" :> 117 @@ "x" :> 120
 Codes(t) == [i \in 1..Len(Row[t].ch) |-> Code[Row[t].ch[i]]]
